@@ -248,8 +248,17 @@ func newHist(id int, seed int64, chain string, r *lib.Rand, realPath bool) *hist
 	for i, k := 0, 1+r.Intn(3); i < k; i++ {
 		h.store(rndObj(r, KSet, 5, 0, small))
 	}
-	for i, k := 0, 1+r.Intn(3); i < k; i++ {
-		h.store(rndObj(r, KBatch, 4, 0, small))
+	// batches share token contracts: "the batch named by (token, nonce)" must not be confused with another
+	// batch of the same token (e.g. the latest one)
+	var pool [2]Addr
+	pool[0], pool[1] = rndAddr(r), rndAddr(r)
+	for i, k := 0, 2+r.Intn(3); i < k; i++ {
+		b := rndObj(r, KBatch, 4, 0, small)
+		b.Token = pool[r.Intn(2)]
+		if r.Chance(50) {
+			b.Nonce = uint64(1 + r.Intn(6))
+		}
+		h.store(b)
 	}
 	for i, k := 0, 1+r.Intn(3); i < k; i++ {
 		h.store(rndObj(r, KCall, 8, 70, small))
@@ -282,13 +291,13 @@ func (h *hist) realObjects() {
 	c.Mint(user.Acc(), lib.FX(1000))
 	ext := lib.ExternalAccount(c.Seed, h.chain, 1)
 	// an observed event makes the external height known (time-outs are computed from it)
+	extHeight := 1000 + uint64(h.r.Intn(1000))
 	for _, e := range x.ObserveAll(func() crosschaintypes.ExternalClaim {
-		return &crosschaintypes.MsgSendToFxClaim{EventNonce: 1, BlockHeight: 1000 + uint64(h.r.Intn(1000)), TokenContract: fxContract,
+		return &crosschaintypes.MsgSendToFxClaim{EventNonce: 1, BlockHeight: extHeight, TokenContract: fxContract,
 			Amount: sdkmath.NewInt(5), Sender: ext, Receiver: user.Acc().String()}
 	}) {
 		lib.Must(e)
 	}
-	fmt.Println("DEBUG observed", x.Keeper.GetLastObservedBlockHeight(c.Ctx), x.Keeper.GetLastObservedEventNonce(c.Ctx), c.Ctx.BlockHeight())
 	ms := x.Msg()
 	for i := 0; i < 1+h.r.Intn(3); i++ {
 		lib.Must(c.Try(func(ctx sdk.Context) error {
@@ -347,8 +356,13 @@ func (h *hist) plan(s *snap) stepPlan {
 		sc, signKey = "wrong-key-unregistered", h.rogue[0].External
 	case k < 46: // signature made for another stored object of the same kind (other nonce)
 		sc = "transplant-other-nonce"
-		for _, o := range s.objs {
+		for _, o := range s.objs { // any other object of the kind ...
 			if o.kind == target.kind && (o.nonce != target.nonce || o.token != target.token) {
+				signObj = o
+			}
+		}
+		for _, o := range s.objs { // ... preferably another batch of the same token
+			if o.kind == target.kind && o.token == target.token && o.nonce != target.nonce && r.Chance(60) {
 				signObj = o
 			}
 		}
@@ -460,7 +474,15 @@ func (h *hist) exec(p stepPlan) error {
 			if err != nil {
 				return err
 			}
-			_, err = ms.Confirm(ctx, &crosschaintypes.MsgConfirm{ChainName: h.chain, BridgerAddress: p.wrapperBridger, Confirm: any})
+			var w sdk.Msg = &crosschaintypes.MsgConfirm{ChainName: h.chain, BridgerAddress: p.wrapperBridger, Confirm: any}
+			// MsgConfirm has no ValidateBasic on this tree; if a later tree adds one (e.g. wrapper bridger = inner
+			// bridger) it is what a transaction would go through first
+			if vb, ok := w.(sdk.HasValidateBasic); ok {
+				if err := vb.ValidateBasic(); err != nil {
+					return errValidateBasic{err}
+				}
+			}
+			_, err = ms.Confirm(ctx, w.(*crosschaintypes.MsgConfirm))
 			return err
 		}
 		var err error
@@ -475,6 +497,8 @@ func (h *hist) exec(p stepPlan) error {
 		return err
 	})
 }
+
+type errValidateBasic struct{ error }
 
 // requiredSigner: the account that has to sign the transaction carrying the message (the protobuf signer option)
 func (h *hist) requiredSigner(p stepPlan) string {
@@ -498,7 +522,7 @@ func (h *hist) coqSig(sigHex string) string {
 	if err != nil {
 		return "None"
 	}
-	return "(Some " + lib.Bytes(b) + ")"
+	return "(Some " + bytesL(b) + ")"
 }
 
 func (h *hist) coqState(s *snap) string {
@@ -524,23 +548,23 @@ func (h *hist) coqState(s *snap) string {
 		if o.obj == nil {
 			continue
 		}
-		objs = append(objs, fmt.Sprintf("((%s, %d, %s), %s)", kindCoq[o.kind], h.id64(o.token), lib.ZU(o.nonce), o.obj.Coq()))
+		objs = append(objs, fmt.Sprintf("((%s, %d, %s), %s)", kindCoq[o.kind], h.id64(o.token), zu(o.nonce), o.obj.Coq()))
 	}
 	confs = h.coqConfs(s)
-	return fmt.Sprintf("(mk_st %s %s %s %s %s %s)", lib.Bool(h.chain == "tron"), lib.Bytes([]byte(s.gid)), lib.List(idx), lib.List(orcs), lib.List(objs), lib.List(confs))
+	return fmt.Sprintf("(mk_st %s %s %s %s %s %s)", lib.Bool(h.chain == "tron"), bytesL([]byte(s.gid)), lib.List(idx), lib.List(orcs), lib.List(objs), lib.List(confs))
 }
 
 func (h *hist) coqConfs(s *snap) []string {
 	var out []string
 	for _, c := range s.confs {
-		out = append(out, fmt.Sprintf("(((%s, %d, %s), %d), mk_msg %s %d %s %d %d %s)", kindCoq[c.kind], h.id64(c.token), lib.ZU(c.nonce), h.id64(c.oracle),
-			kindCoq[c.kind], h.id64(c.vToken), lib.ZU(c.vNonce), h.id64(c.vBridger), h.id64(c.vExt), h.coqSig(c.vSig)))
+		out = append(out, fmt.Sprintf("(((%s, %d, %s), %d), mk_msg %s %d %s %d %d %s)", kindCoq[c.kind], h.id64(c.token), zu(c.nonce), h.id64(c.oracle),
+			kindCoq[c.kind], h.id64(c.vToken), zu(c.vNonce), h.id64(c.vBridger), h.id64(c.vExt), h.coqSig(c.vSig)))
 	}
 	return out
 }
 
 func (h *hist) coqMsg(m confirmMsg) string {
-	return fmt.Sprintf("(mk_msg %s %d %s %d %d %s)", kindCoq[m.kind], h.id64(m.token), lib.ZU(m.nonce), h.id64(m.bridger), h.id64(m.external), h.coqSig(m.sigHex))
+	return fmt.Sprintf("(mk_msg %s %d %s %d %d %s)", kindCoq[m.kind], h.id64(m.token), zu(m.nonce), h.id64(m.bridger), h.id64(m.external), h.coqSig(m.sigHex))
 }
 
 // ---------------------------------------------------------------- step + monitor
@@ -575,17 +599,25 @@ func (h *hist) step(rep *lib.Report, stepNo int) stepResult {
 			if a, ok := ownRecover(h.chain, keccak(preimage), ns); ok {
 				res = fmt.Sprintf("(Some %d)", h.id64(a))
 			}
-			pw := words(preimage)
+			pw := bytesL(preimage)
 			if !hashOK {
 				pw = "[]" // the harness cannot name the bytes the implementation hashed: the model will miss its entry
 			}
-			recs = append(recs, fmt.Sprintf("(%s, %s, %s)", pw, lib.Bytes(ns), res))
+			recs = append(recs, fmt.Sprintf("(%s, %s, %s)", pw, bytesL(ns), res))
 		}
 	}
 
 	err := h.exec(p)
 	post := h.snapshot()
 	ok := err == nil
+	if _, isVB := err.(errValidateBasic); isVB { // never reached the handler: nothing for the handler model to say
+		rep.Count("wrapped: rejected by MsgConfirm.ValidateBasic")
+		if !sameConfs(pre, post) {
+			rep.Fail(lib.Failure{Kind: "monitor", Sig: "C12/rejected-changed-store", What: "a confirm rejected by ValidateBasic changed the confirm stores"})
+		}
+		rep.Case(fmt.Sprintf("h%d/%d", h.id, stepNo), true)
+		return stepResult{item: "", accepted: false, scenario: p.scenario}
+	}
 	if ok {
 		h.accepted = append(h.accepted, m)
 	}
